@@ -1,4 +1,5 @@
 from lib.runner import PropCheck, Stream
+from props.C05b_stream import Expiration
 
 
 def eff_max(sys_max, bmax, emax):
@@ -43,11 +44,14 @@ class CalcTTL(Stream):
 
 class C05(PropCheck):
     pid = "C05"
-    streams = [CalcTTL()]
+    lean_modules = ["C05", "C05b"]
+    streams = [CalcTTL(), Expiration()]
     level_text = ("Lean theorems: calcTTL_bound (every granted TTL respects issue time + effective maximum, all inputs), "
                   "renew_sequence_bound (no renewal sequence passes the bound), past_max_refused; model tied to "
                   "framework.CalculateTTL by a differential lattice stream on every run, and the bound is evaluated "
-                  "directly on every implementation output")
+                  "directly on every implementation output; second stream: the expiration manager of a real Core (register / renew / "
+                  "revoke / restart / crash prefixes) compared with a model of its tracking sets, theorems tracked_eq_stored, "
+                  "restart_tracks_stored, unrenewable_refused, renew_within_max, job_resolves_within_budget (Props/C05b.lean)")
     level_note = ("trusted: Lean kernel; hand-written model of CalculateTTL and its differential tie; int64 overflow excluded "
                   "(durations within +-2^61 ns); the lease-tracking half of C05 (expiration manager restore) is covered by the "
                   "second stream when present, else named as a gap in the evidence")
